@@ -66,6 +66,14 @@ def cases(ctx):
     for n in (["conf-alt-AB", "conf-model-missing-atoms"] if not ctx.thorough() else
               ["conf-alt-AB", "conf-alt-BC", "conf-alt-AB-mutant", "conf-model-missing-atoms", "conf-model-mutant"]):
         out.append((n, C.test_pdb_text(n), []))
+    # chain selections the writer has to render too: a blank chain identifier, a chain named twice, the reverse file order
+    fa = C.chain_lines("1HPX", "A", 20, 12)
+    fb = C.chain_lines("1HPX", "B", 20, 12)
+    blank = C.join(C.rename_chain(fa, "A", " ") + [C.TER] + fb + [C.TER])
+    out.append(("blank+B -c ' '", blank, ["-c", " "]))
+    out.append(("blank+B -c ' ' -c B", blank, ["-c", " ", "-c", "B"]))
+    out.append(("frag-AB -c B -c A", C.join(fa + [C.TER] + fb + [C.TER]), ["-c", "B", "-c", "A"]))
+    out.append(("frag-AB -c A -c A", C.join(fa + [C.TER] + fb + [C.TER]), ["-c", "A", "-c", "A"]))
     # point mutants between conformations: a reported group that exists in some conformations only
     from . import c08
     multi = dict(c08.constructed(ctx))
